@@ -56,6 +56,22 @@ CLAIMED['C06'] = dict(
     note='compile phase = reachable from String.cook and the registry '
          'constructors in the resolved call graph; Python re is a '
          'backtracking matcher')
+CLAIMED['C14'] = dict(
+    technique='who-may-catch analysis over the resolved call graph '
+              '(including the block dispatch), handler/clause placement '
+              'queries, exit-kind interpretation',
+    text='Partial: dtml-return transparency -- the least set of functions '
+         'that can let DTReturn out is computed and every try guarding one '
+         'is shown not to swallow it; only the template call catches it, '
+         'around exactly the top-level render; the else body is rendered '
+         'in the else clause, the finally body in a finally clause (one '
+         'site), the handler body under try/finally without except; '
+         'dtml-raise has no normal exit; handlers are searched first-match '
+         'in written order with base-class recursion. Not decided: class '
+         'matching on concrete hierarchies, values of error_type/value.',
+    ref='4 C14',
+    note='values called through the namespace are assumed not to raise '
+         'DTReturn themselves')
 PENDING = {}
 NA = {
     'C16': 'numerical identities over run-time data (sums, means, n vs n-1, '
